@@ -171,4 +171,356 @@ Proof.
   apply (fold_responses l []).
 Qed.
 
+(** * Response.Err / Path / DecodeProp: every entry is read alike *)
+
+Definition err_code (e : cerr) : N := match e with EHttp c _ => c | EOther => 0%N end.
+
+Lemma resp_err_agree d :
+  resp_err (emb_d d) = match D.resp_err d with Some c => Some (EHttp c None) | None => None end.
+Proof.
+  unfold resp_err, D.resp_err, emb_d. cbn [r_status r_error].
+  destruct (D.dr_status d) as [c|]; [|reflexivity].
+  unfold success, D.code_err. destruct (c / 100 =? 2)%N; reflexivity.
+Qed.
+
+Lemma resp_path_agree d :
+  match D.resp_path d with
+  | Ok p => resp_path (emb_d d) = (p, None)
+  | Err c => exists q e, resp_path (emb_d d) = (q, Some e) /\ err_code e = c
+  | Panic => False
+  end.
+Proof.
+  unfold D.resp_path, resp_path. rewrite resp_err_agree. change (r_hrefs (emb_d d)) with (D.dr_paths d).
+  destruct (D.resp_err d) as [c|].
+  - destruct (D.dr_paths d) as [|p [|q l]]; do 2 eexists; split; reflexivity.
+  - destruct (D.dr_paths d) as [|p [|q l]]; try reflexivity; do 2 eexists; split; reflexivity.
+Qed.
+
+Lemma qeq_qn k n : qeq (qn k) (qn n) = D.pname_eqb k n.
+Proof. destruct k, n; reflexivity. Qed.
+
+Lemma prop_get_agree n l :
+  prop_get (qn n) (map prop_elem l) =
+  match (fix get (l : list (D.pname * D.pvalue)) : option D.pvalue :=
+           match l with
+           | [] => None
+           | (k, v) :: r => if D.pname_eqb k n then Some v else get r
+           end) l with
+  | Some v => Some (prop_elem (n, v))
+  | None => None
+  end.
+Proof.
+  unfold prop_get. induction l as [|[k v] l IH]; [reflexivity|].
+  cbn [map find]. change (xname (prop_elem (k, v))) with (qn k). rewrite qeq_qn.
+  destruct (D.pname_eqb k n) eqn:E; [|exact IH].
+  destruct k, n; try discriminate E; reflexivity.
+Qed.
+
+Lemma find_prop_agree n pss :
+  match find_prop (qn n) (map emb_ps pss) with
+  | None => D.find_prop n pss = Err 404
+  | Some (ps', raw) =>
+    exists ps v, ps' = emb_ps ps /\ raw = prop_elem (n, v) /\
+      D.find_prop n pss = match D.code_err (D.ps_code ps) with Some c => Err c | None => Ok v end
+  end.
+Proof.
+  induction pss as [|ps pss IH]; [reflexivity|].
+  cbn [map find_prop D.find_prop]. unfold emb_ps at 1. cbn [ps_props].
+  rewrite prop_get_agree.
+  destruct ((fix get (l : list (D.pname * D.pvalue)) : option D.pvalue :=
+               match l with
+               | [] => None
+               | (k, v) :: r => if D.pname_eqb k n then Some v else get r
+               end) (D.ps_props ps)) as [v|].
+  - exists ps, v. auto.
+  - exact IH.
+Qed.
+
+(** Response.DecodeProp: ClientTotal's, with any value decoder, is DavClient's followed by
+    that decoder on the property element. *)
+Theorem decode_prop_agree {A} d n (dec : xtree -> option A) :
+  decode_prop (emb_d d) (qn n) dec =
+  match D.decode_prop d n with
+  | Ok v => match dec (prop_elem (n, v)) with Some a => COk a | None => CErr EOther end
+  | Err c => CErr (EHttp c None)
+  | Panic => CPanic
+  end.
+Proof.
+  unfold decode_prop, D.decode_prop. rewrite resp_err_agree.
+  destruct (D.resp_err d) as [c|]; [reflexivity|].
+  unfold emb_d. cbn [r_pss].
+  pose proof (find_prop_agree n (D.dr_propstats d)) as F.
+  destruct (find_prop (qn n) (map emb_ps (D.dr_propstats d))) as [[ps' raw]|].
+  - destruct F as (ps & v & -> & -> & ->). unfold emb_ps. cbn [ps_status].
+    unfold status_err, success, D.code_err. destruct (D.ps_code ps / 100 =? 2)%N; reflexivity.
+  - rewrite F. reflexivity.
+Qed.
+
+Lemma d_decode_prop_no_panic d n : D.decode_prop d n <> Panic.
+Proof.
+  unfold D.decode_prop. destruct (D.resp_err d); [discriminate|].
+  induction (D.dr_propstats d) as [|ps l IH]; cbn [D.find_prop]; [discriminate|].
+  destruct ((fix get (l : list (D.pname * D.pvalue)) : option D.pvalue :=
+               match l with
+               | [] => None
+               | (k, v) :: r => if D.pname_eqb k n then Some v else get r
+               end) (D.ps_props ps)); [|exact IH].
+  destruct (D.code_err (D.ps_code ps)); discriminate.
+Qed.
+
+(** * fileInfoFromResponse *)
+
+Definition rel {A B} (f : A -> B -> Prop) (x : res A) (y : cres B) : Prop :=
+  match x with
+  | Ok a => exists b, y = COk b /\ f a b
+  | Err c => exists e, y = CErr e /\ err_code e = c
+  | Panic => False
+  end.
+
+Ltac fin := cbn [bind cbind rel D.tolerate_404 tolerate D.opt_res]; first
+  [ eexists; split; reflexivity
+  | (eexists; split; [reflexivity|]; cbn [err_code]; reflexivity) ].
+
+Ltac dp n dec v c E :=
+  rewrite (decode_prop_agree _ n dec);
+  destruct (D.decode_prop _ n) as [v|c|] eqn:E;
+  [ | | exfalso; exact (d_decode_prop_no_panic _ _ E) ];
+  cbn [bind cbind D.tolerate_404 tolerate].
+
+Theorem file_info_agree d :
+  rel (fun i p => p = D.i_path i) (D.file_info_from_response X d) (file_info (emb_d d)).
+Proof.
+  unfold D.file_info_from_response, file_info.
+  pose proof (resp_path_agree d) as P.
+  destruct (D.resp_path d) as [p|c|]; [|destruct P as (q & e & -> & <-); fin|contradiction].
+  rewrite P. cbn [bind].
+  change n_resourcetype with (qn D.RT). dp D.RT dec_restype rt c E1; [|fin].
+  assert (dec_restype (prop_elem (D.RT, rt)) = Some (if match rt with D.PResType b => b | _ => false end then [n_collection] else [])) as ->
+    by (destruct rt as [[|]| |]; reflexivity).
+  cbn [cbind].
+  assert (forall b : bool, has_name n_collection (if b then [n_collection] else []) = b) as HN by (intros [|]; reflexivity).
+  rewrite HN. clear HN.
+  (* the tail shared by both branches: the modification time *)
+  assert (forall len ty tag,
+    rel (fun i p0 => p0 = D.i_path i)
+      (do md <- D.tolerate_404 (do v <- D.decode_prop d D.LMOD; D.opt_res (D.x_time_parse X (D.text_of X v))) D.zero_time;
+       Ok {| D.i_path := p; D.i_size := len; D.i_mod := md;
+             D.i_dir := match rt with D.PResType b => b | _ => false end; D.i_mime := ty; D.i_etag := tag |})
+      (cdo _ <- tolerate (decode_prop (emb_d d) n_getlastmodified dec_good) tt; COk p)) as TAIL.
+  { intros len ty tag. change n_getlastmodified with (qn D.LMOD). dp D.LMOD dec_good v c E.
+    - unfold dec_good, prop_elem. cbn [xann fst snd good_of].
+      destruct (D.x_time_parse X (D.text_of X v)); fin.
+    - unfold is_not_found. destruct (c =? 404)%N; fin. }
+  destruct (match rt with D.PResType b => b | _ => false end) eqn:COLL; cbn [bind cbind].
+  - apply TAIL.
+  - change n_getcontentlength with (qn D.CLEN). dp D.CLEN dec_int lv c E2; [|fin].
+    unfold dec_int at 1, prop_elem at 1. cbn [xann fst snd].
+    destruct (D.parse_size (D.text_of X lv)) as [len|]; [|fin]. cbn [bind cbind D.opt_res].
+    change n_getcontenttype with (qn D.CTYPE). dp D.CTYPE dec_any tv c E3.
+    + cbn [dec_any cbind bind].
+      change n_getetag with (qn D.ETAG). dp D.ETAG dec_good ev c E4.
+      * unfold dec_good at 1, prop_elem at 1. cbn [xann fst snd good_of].
+        destruct (D.unmarshal_etag X (D.text_of X ev)) as [tag|]; cbn [bind cbind D.opt_res D.tolerate_404 tolerate good_of]; [apply TAIL|fin].
+      * unfold is_not_found. destruct (c =? 404)%N; cbn [bind cbind]; [apply TAIL|fin].
+    + unfold is_not_found. destruct (c =? 404)%N; cbn [bind cbind]; [|fin].
+      change n_getetag with (qn D.ETAG). dp D.ETAG dec_good ev c' E4.
+      * unfold dec_good at 1, prop_elem at 1. cbn [xann fst snd good_of].
+        destruct (D.unmarshal_etag X (D.text_of X ev)) as [tag|]; cbn [bind cbind D.opt_res D.tolerate_404 tolerate good_of]; [apply TAIL|fin].
+      * unfold is_not_found. destruct (c' =? 404)%N; cbn [bind cbind]; [apply TAIL|fin].
+Qed.
+
+(** * The loops, DoMultiStatus, the methods *)
+
+Lemma infos_agree ds :
+  rel (fun l v => v = map D.i_path l) (D.infos_of X ds)
+      (collect (fun r => cdo p <- file_info r; COk (Some p)) (map emb_d ds)).
+Proof.
+  induction ds as [|d ds IH]; cbn [D.infos_of map collect].
+  - exists []. auto.
+  - pose proof (file_info_agree d) as F.
+    destruct (D.file_info_from_response X d) as [i|c|]; cbn [bind rel] in *; [|destruct F as (e & -> & <-); fin|contradiction].
+    destruct F as (p & -> & ->). cbn [cbind].
+    destruct (D.infos_of X ds) as [l|c|]; cbn [bind rel] in *; [|destruct IH as (e & -> & <-); fin|contradiction].
+    destruct IH as (v & -> & ->). cbn [cbind]. eexists; split; reflexivity.
+Qed.
+
+Variable mt : string.
+
+(** Client.DoMultiStatus on the embedded answer *)
+Lemma do_ms_agree r :
+  rel (fun ds ms => ms = map emb_d ds) (D.do_multistatus X r) (do_multistatus (embed mt r)).
+Proof.
+  unfold embed. rewrite do_ms_resp. unfold D.do_multistatus, D.client_do, spec_ms, success.
+  cbn [h_status h_xml].
+  destruct (D.h_status r / 100 =? 2)%N; cbn [bind]; [|fin].
+  destruct (D.h_status r =? 207)%N; cbn [negb]; [|fin].
+  rewrite dec_ms_embed. destruct (D.decode_ms X (D.h_ms r)) as [ds|]; fin.
+Qed.
+
+Definition out_rel (o : D.outcome) (y : cres value) : Prop :=
+  match o with
+  | D.OInfo i => y = COk (VPaths [D.i_path i])
+  | D.OList l => y = COk (VPaths (map D.i_path l))
+  | D.OBytes _ | D.ODone => y = COk VUnit
+  | D.OErr c => exists e, y = CErr e /\ err_code e = c
+  end.
+
+(** Client.Stat *)
+Theorem agree_stat path r :
+  out_rel (D.out_of D.OInfo
+             (do ms <- D.do_multistatus X r;
+              match ms with [d] => D.file_info_from_response X d | _ => Err 0%N end))
+          (run MStat path (embed mt r)).
+Proof.
+  unfold run, stat, propfind_flat.
+  pose proof (do_ms_agree r) as M.
+  destruct (D.do_multistatus X r) as [ds|c|]; cbn [bind rel] in *; [|destruct M as (e & -> & <-); eexists; split; reflexivity|contradiction].
+  destruct M as (ms & -> & ->). cbn [cbind].
+  destruct ds as [|d [|d2 ds]]; cbn [map cbind D.out_of out_rel]; try (eexists; split; reflexivity).
+  pose proof (file_info_agree d) as F.
+  destruct (D.file_info_from_response X d) as [i|c|]; cbn [rel D.out_of out_rel] in *.
+  - destruct F as (p & -> & ->). reflexivity.
+  - destruct F as (e & -> & <-). eexists; split; reflexivity.
+  - contradiction.
+Qed.
+
+(** Client.ReadDir *)
+Theorem agree_readdir path r :
+  out_rel (D.out_of D.OList (do ms <- D.do_multistatus X r; D.infos_of X ms))
+          (run MReadDir path (embed mt r)).
+Proof.
+  unfold run, read_dir.
+  pose proof (do_ms_agree r) as M.
+  destruct (D.do_multistatus X r) as [ds|c|]; cbn [bind rel] in *; [|destruct M as (e & -> & <-); eexists; split; reflexivity|contradiction].
+  destruct M as (ms & -> & ->). cbn [cbind].
+  pose proof (infos_agree ds) as F.
+  destruct (D.infos_of X ds) as [l|c|]; cbn [rel D.out_of out_rel] in *.
+  - destruct F as (v & -> & ->). reflexivity.
+  - destruct F as (e & -> & <-). eexists; split; reflexivity.
+  - contradiction.
+Qed.
+
+(** the methods that only look at the status: Open, Create+Close, RemoveAll, Mkdir, Copy, Move *)
+Theorem agree_plain (f : D.hresp -> D.outcome) r :
+  (forall x, f x = D.ODone \/ exists b, f x = D.OBytes b) ->
+  out_rel (D.out_of f (D.client_do r)) (plain (embed mt r)).
+Proof.
+  intros Hf. unfold plain, embed. rewrite client_do_resp. unfold D.client_do, success. cbn [h_status].
+  destruct (D.h_status r / 100 =? 2)%N; cbn [D.out_of cbind out_rel].
+  - destruct (Hf r) as [->|(b & ->)]; reflexivity.
+  - eexists; split; reflexivity.
+Qed.
+
+(** * Every DavClient operation against the answer of DavClient's own server model *)
+
+Variable fs : D.filesystem.
+Variable ep : string.
+
+(** the answer the server model gives to the request the client model sends *)
+Definition dav_answer (o : D.op) : D.hresp :=
+  match o with
+  | D.OpStat n => snd (D.srv_propfind X fs (D.resolve_href ep n) (D.depth_string D.D0) D.file_info_propfind)
+  | D.OpReadDir n rec =>
+    snd (D.srv_propfind X fs (D.resolve_href ep n) (D.depth_string (if rec then D.DInf else D.D1)) D.file_info_propfind)
+  | D.OpOpen n => snd (D.srv_get fs (D.resolve_href ep n))
+  | D.OpCreate n ch => snd (D.srv_put fs (D.resolve_href ep n) (String.concat "" ch) "" "")
+  | D.OpRemoveAll n => snd (D.srv_delete fs (D.resolve_href ep n) "" "")
+  | D.OpMkdir n => snd (D.srv_mkcol fs (D.resolve_href ep n) "")
+  | D.OpCopy n dst nr no =>
+    snd (D.srv_copy_move fs true (D.resolve_href ep n) (Some (D.resolve_href ep dst))
+           (D.format_overwrite (negb no)) (D.depth_string (if nr then D.D0 else D.DInf)))
+  | D.OpMove n dst no =>
+    snd (D.srv_copy_move fs false (D.resolve_href ep n) (Some (D.resolve_href ep dst))
+           (D.format_overwrite (negb no)) "")
+  end.
+
+Definition meth_of (o : D.op) : meth :=
+  match o with
+  | D.OpStat _ => MStat | D.OpReadDir _ _ => MReadDir | D.OpOpen _ => MOpen | D.OpCreate _ _ => MCreate
+  | D.OpRemoveAll _ => MRemoveAll | D.OpMkdir _ => MMkdir | D.OpCopy _ _ _ _ => MCopy | D.OpMove _ _ _ => MMove
+  end.
+
+Theorem agrees_with_dav_client_model (o : D.op) (path : string) :
+  out_rel (snd (D.run_op X fs ep o)) (run (meth_of o) path (embed mt (dav_answer o))).
+Proof.
+  destruct o as [n|n rec|n|n ch|n|n|n dst nr no|n dst no]; cbn [D.run_op meth_of dav_answer].
+  - unfold D.client_stat.
+    destruct (D.srv_propfind X fs (D.resolve_href ep n) (D.depth_string D.D0) D.file_info_propfind) as [calls resp].
+    cbn [snd]. apply agree_stat.
+  - unfold D.client_readdir.
+    destruct (D.srv_propfind X fs (D.resolve_href ep n) (D.depth_string (if rec then D.DInf else D.D1)) D.file_info_propfind) as [calls resp].
+    cbn [snd]. apply agree_readdir.
+  - unfold D.client_open. destruct (D.srv_get fs (D.resolve_href ep n)) as [calls resp]. cbn [snd].
+    apply (agree_plain (fun r => D.OBytes (D.h_body r))). eauto.
+  - unfold D.client_create. destruct (D.srv_put fs (D.resolve_href ep n) (String.concat "" ch) "" "") as [calls resp]. cbn [snd].
+    apply (agree_plain (fun _ => D.ODone)). auto.
+  - unfold D.client_remove_all. destruct (D.srv_delete fs (D.resolve_href ep n) "" "") as [calls resp]. cbn [snd].
+    apply (agree_plain (fun _ => D.ODone)). auto.
+  - unfold D.client_mkdir. destruct (D.srv_mkcol fs (D.resolve_href ep n) "") as [calls resp]. cbn [snd].
+    apply (agree_plain (fun _ => D.ODone)). auto.
+  - unfold D.client_copy.
+    destruct (D.srv_copy_move fs true (D.resolve_href ep n) (Some (D.resolve_href ep dst))
+                (D.format_overwrite (negb no)) (D.depth_string (if nr then D.D0 else D.DInf))) as [calls resp]. cbn [snd].
+    apply (agree_plain (fun _ => D.ODone)). auto.
+  - unfold D.client_move.
+    destruct (D.srv_copy_move fs false (D.resolve_href ep n) (Some (D.resolve_href ep dst))
+                (D.format_overwrite (negb no)) "") as [calls resp]. cbn [snd].
+    apply (agree_plain (fun _ => D.ODone)). auto.
+Qed.
+
 End Agree.
+
+Theorem dav_client_decoding_agrees X :
+  (forall l, dec_multistatus (ms_tree X l) =
+             match D.decode_ms X l with Some ds => Some (map (emb_d X) ds) | None => None end) /\
+  (forall A d n (dec : xtree -> option A),
+     decode_prop (emb_d X d) (qn n) dec =
+     match D.decode_prop d n with
+     | Ok v => match dec (prop_elem X (n, v)) with Some a => COk a | None => CErr EOther end
+     | Err c => CErr (EHttp c None)
+     | Panic => CPanic
+     end) /\
+  (forall d, rel (fun i p => p = D.i_path i) (D.file_info_from_response X d) (file_info (emb_d X d))).
+Proof.
+  split; [exact (dec_ms_embed X)|]. split; [intros; apply decode_prop_agree|exact (file_info_agree X)].
+Qed.
+
+(** * A difference between the two models, outside the range of DavClient's server model
+
+    DavClient.parse_size (its reading of the int64 character data of getcontentlength)
+    refuses the empty text; encoding/xml sets an int64 field to 0 for empty character data,
+    and the real client (harness cmd/c14, Stat on a 200 propstat with <D:getcontentlength/>)
+    returns the FileInfo with size 0.  ClientTotal takes the conversion's outcome as data
+    (the harness reports [LInt false] for it).  DavClient's server model never writes an
+    empty getcontentlength into a 200 propstat, so its own correspondence check cannot see
+    this; the agreement theorems above hold because [prop_elem] annotates with DavClient's
+    own codec.  (The same holds for texts like " 7", "+7", "-1", which strconv.ParseInt after
+    TrimSpace accepts and parse_size refuses.) *)
+Definition ext_id : D.ext :=
+  {| D.x_href_enc := fun s => s; D.x_href_dec := fun s => Some s; D.x_quote := fun s => s;
+     D.x_unquote := fun s => Some s; D.x_time_fmt := fun _ => ""; D.x_time_parse := fun _ => None;
+     D.x_text := fun s => s; D.x_mime_ext := fun _ => "" |}.
+
+Definition empty_length_answer : D.hresp :=
+  {| D.h_status := 207; D.h_body := "";
+     D.h_ms := [ {| D.wr_hrefs := ["/dir/a.txt"]; D.wr_status := None;
+                    D.wr_propstats := [ {| D.ps_code := 200;
+                                           D.ps_props := [(D.RT, D.PResType false); (D.CLEN, D.PEmpty)] |} ] |} ] |}.
+
+(** the element tree with the annotation the real conversion yields: (i 0) *)
+Definition empty_length_script : script :=
+  Resp (mkH 207 true "application/xml" false "application/xml" [] LNone true true true LBad LBad
+    (XTree (Elem (DAV, "multistatus") LNone
+      [Elem (DAV, "response") LNone
+        [Elem (DAV, "href") (LPath "/dir/a.txt") [];
+         Elem (DAV, "propstat") LNone
+           [Elem (DAV, "prop") LNone
+              [Elem n_resourcetype LNone []; Elem n_getcontentlength (LInt false) []];
+            Elem (DAV, "status") (LCode 200) []]]]))).
+
+Example models_differ_on_empty_length :
+  D.out_of D.OInfo
+    (do ms <- D.do_multistatus ext_id empty_length_answer;
+     match ms with [d] => D.file_info_from_response ext_id d | _ => Err 0%N end) = D.OErr 0
+  /\ run MStat "/dir/a.txt" empty_length_script = COk (VPaths ["/dir/a.txt"]).
+Proof. vm_compute. auto. Qed.
